@@ -28,21 +28,12 @@ def oracle(line, impl, model, ref=None):
     return None
 
 
-@vlib.known_matcher("D70")
-def _match_d70(stream, line, impl, model):
-    """a schema with an unguarded reference cycle overflows the stack at validation time"""
-    if not line.startswith("fz expr schema") or not impl.startswith("CRASH"):
-        return False
-    text = bytes.fromhex(line.split()[3])
-    return b'"$ref"' in text and ("stack-overflow" in impl or "DEADLYSIGNAL" in impl or "SEGV" in impl)
-
-
 @vlib.known_matcher("D73")
 def _match_d73(stream, line, impl, model):
-    """csv column_types with the repeat forms trip assertions of json_decoder on some inputs"""
-    if not line.startswith("fz dec csv") or "ASSERTION" not in impl:
+    """a csv column_types option string outside the accepted grammar (',' right after '*') trips the assertion in parse_column_types"""
+    if not line.startswith("fz dec csv") or "ASSERTION(assertion 'false'" not in impl:
         return False
-    return any(t[0] == "t" and b"*" in bytes.fromhex(t[1:]) for t in line.split()[4:] if len(t) > 1 and t[0] == "t")
+    return any(b"*," in bytes.fromhex(t[1:]) for t in line.split()[4:] if len(t) > 1 and t[0] == "t")
 
 
 def nontrivial(line, impl):
